@@ -381,6 +381,29 @@ def check(src, rep):
             for e in esc:
                 e.origin = f"{gname}:{e.origin}"
                 sink(e)
+        # the public normalisers interpreted on abstract parse results of every kind of every position (E-ABS): what they really raise
+        from sa.parsedworlds import normaliser_outcomes
+        from sa.decoders import obis_hook as _oh
+        world_classes, world_und = {}, None
+        for gname, nname in (("LlcPdu", "normalize_parsed_frame"), ("NotificationBody", "normalize_parsed_notification")):
+            nfn = M.funcs.get(f"{mod}.{nname}")
+            g = w.module(mod).env.get(gname)
+            if nfn is None or not isinstance(g, N):
+                world_und = f"{mod}.{nname} / {gname} not found"
+                continue
+            try:
+                outs_, nobj_, und_ = normaliser_outcomes(M, T, mod, g, nfn, hooks={"Obis.from_string": _oh})
+            except Exception as ex_:  # noqa
+                outs_, nobj_, und_ = [], 0, f"{type(ex_).__name__}: {ex_}"
+            n_sites += nobj_
+            if und_:
+                world_und = und_
+            for desc_, r_ in outs_:
+                if r_[0] == "raise":
+                    world_classes.setdefault(r_[1], (nfn, desc_))
+        for cls_, (nfn, desc_) in sorted(world_classes.items()):
+            sink(Escape(cls_, f"{nfn.name}:abstract-parse-result", nfn.node.lineno, f"{nfn.name} raises {cls_} on an abstract parse result the grammar can produce ({desc_})"))
+        rep.count("abstract_parse_results", 1 if not world_und else 0)
         for fname, ptypes in sorted(mt.types.items()):
             fnode = mt.funcs.get(fname)
             if fnode is None:
@@ -401,9 +424,25 @@ def check(src, rep):
                         allp.append((p, _after_enter(p)))
                     add_loops(l.children)
             add_loops(loops)
+            def lex_sink(esc, fnode=fnode, sink=sink):
+                # kind-level findings of the typed scan are kept only if the interpreter confirms the class (or could not run): it executes try/except,
+                # match and helper objects as written, the scan over-approximates them
+                if esc.cls in ("AttributeError", "TypeError", "KeyError", "IndexError") and world_und is None and esc.cls not in world_classes and not esc.origin.endswith(":raise"):
+                    return
+                # a partial operation written inside a try whose handler names the class (or a base of it) does not let that class out
+                for t_ in ast.walk(fnode):
+                    if isinstance(t_, ast.Try) and any(getattr(b_, "lineno", 0) <= esc.line <= getattr(b_, "end_lineno", 0) for b_ in t_.body):
+                        names_ = [n_ for h_ in t_.handlers for n_ in ([ast.unparse(x_) for x_ in (h_.type.elts if isinstance(h_.type, ast.Tuple) else [h_.type])] if h_.type is not None else ["BaseException"])]
+                        if covered(esc.cls, names_):
+                            return
+                    if isinstance(t_, (ast.With, ast.AsyncWith)) and any(getattr(b_, "lineno", 0) <= esc.line <= getattr(b_, "end_lineno", 0) for b_ in t_.body):
+                        names_ = [ast.unparse(a_) for it_ in t_.items if isinstance(it_.context_expr, ast.Call) and ast.unparse(it_.context_expr.func).endswith("suppress") for a_ in it_.context_expr.args]
+                        if names_ and covered(esc.cls, names_):
+                            return
+                sink(esc)
             for p, start in allp:
                 n_sites += 1
-                scan_path(p, tv, fname, sink, start)
+                scan_path(p, tv, fname, lex_sink, start)
     # ---- the P1 decoder: partial built-ins and explicit raises, by AST census with the handler
     _p1_escapes(rep, M, src, sink_for("P1", "dlde"))
     n_sites += _p1_partial_ops(rep, M, sink_for("P1", "dlde"))
